@@ -737,6 +737,41 @@ SDB_READS = {"user_name", "user_db_id", "find_user_db_id", "user_db", "user_db_r
 POOL_BENIGN = {"db_size"}
 
 
+def guard_via_helper(fa, h, g):
+    """Guard `g` evaluated inside a local async helper that the handler awaits with `?` (e.g. `ensure_db_admin(..).await?`):
+    the helper's Ok result must be reachable only through the guard's permitting edges (with the handler's values bound to
+    the helper's parameters); the handler's permitting edges are then the Ok edges of that call."""
+    out = []
+    for i, t in cfg.calls(h.b):
+        n = cfg.callee(t) or ""
+        sig = fa.fns.get(n)
+        if not (sig and sig.get("async") and n.startswith("agdb_server::routes::")):
+            continue
+        hb = coro(fa, n)
+        if hb is None:
+            continue
+        h2 = H.__new__(H)
+        h2.fa, h2.path, h2.sig, h2.b, h2.err, h2.vals = fa, n, sig, hb, None, {}
+        for k, a in enumerate(t["a"]):
+            w = who(h.b, a)
+            if not w:
+                continue
+            for name, v in h.vals.items():
+                if v[0] == w[0] and v[1][:len(w[1])] == w[1]:
+                    h2.vals[name] = (1, (".%d" % k,) + tuple(v[1][len(w[1]):]))
+        try:
+            edges2 = g(h2)
+        except Exception:       # noqa: a guard recogniser that does not apply to this helper
+            edges2 = []
+        if not edges2:
+            continue
+        okb = ok_blocks(hb)
+        if okb and all(cut(hb, x, [e for d, e in edges2]) is None for x in okb):
+            for e in ok_edges(h.b, t["d"][0]):
+                out.append(("%s(..).await? [%s]" % (last(n), " | ".join(sorted({d for d, e_ in edges2}))), e))
+    return out
+
+
 def r24c(ctx, rows):
     fa = ctx.facts
     routed = {h for p, m, h, i in rows}
@@ -776,7 +811,7 @@ def r24c(ctx, rows):
                 ctx.ob("R24c", "%s:%s:own-data" % (short, ename), not bad,
                        "reads the caller's own data (argument is the authenticated user id)", b.loc(sites[0]))
             for gi, g in enumerate(guards):
-                edges = g(h)
+                edges = g(h) or guard_via_helper(fa, h, g)
                 desc = " | ".join(sorted({d for d, e in edges})) or "guard #%d" % gi
                 if not edges:
                     ctx.ob("R24c", "%s:%s:guard#%d" % (short, ename, gi), False,
@@ -947,9 +982,18 @@ def query_truth(fa):
     return out
 
 
-def arm_table(fa, fn, classify):
-    """variant -> class from the HIR match on QueryType in `fn`; '_' key for the wildcard arm."""
-    ms = [m for m in fa.matches(fn) if m["scrut_ty"].endswith("agdb::QueryType")]
+def arm_table(fa, fn, classify, informative=lambda c: c not in ("none", "?", "skip")):
+    """variant -> class from the HIR match on QueryType in `fn` (or in a helper folded into it); '_' key for the wildcard
+    arm.  When the function holds several such matches (its own dispatch plus a classifying predicate), the one whose arms
+    the classifier finds informative is taken."""
+    b0 = fa.body(fn)
+    if b0 is not None:
+        from lib import inline
+        inline.inlined(fa, b0)          # registers folded helpers, whose HIR matches then count for `fn`
+    ms = [m for m in fa.matches(fn) if m["scrut_ty"].replace("&", "").replace("mut ", "").strip().endswith("agdb::QueryType")]
+    if len(ms) > 1:
+        best = [m for m in ms if any(informative(classify(a["body"])) for a in m["arms"])]
+        ms = best if len(best) == 1 else ms
     if len(ms) != 1:
         return None
     tbl = {}
@@ -980,8 +1024,18 @@ def exec_class(body):
 
 def audited_variants(body):
     """(variant -> bool: arm sets the audit flag, audit call guarded by the flag) from t_exec_mut's MIR."""
-    flag = [i for i, l in enumerate(body.locals) if l.get("n") == "do_audit"]
-    sw = None
+    # the audit flag: the boolean local that guards the audit_query call (whatever it is called)
+    aq0 = [i for i, t in cfg.calls(body) if cfg.callee(t) == UDB + "audit_query"]
+    flag = []
+    for l_ in range(len(body.locals)):
+        if body.local_ty(l_) != "bool" or body.local_name(l_) is None:
+            continue
+        ds_ = [d for d in cfg.defs(body).get(l_, []) if d[0] != "partial"]
+        if ds_ and all(d[0] == "assign" and d[2]["k"] == "use" and cfg.op_const(d[2]["o"]) for d in ds_):
+            es_ = [sw_["true_edge"] for sw_ in cfg.bool_switches(body, flow(body, [l_]))]
+            if aq0 and es_ and all(cut(body, a, es_) is None for a in aq0):
+                flag.append(l_)
+    sws = []
     for i, blk in enumerate(body.blocks):
         t = blk["term"]
         if t["k"] != "switch":
@@ -989,19 +1043,34 @@ def audited_variants(body):
         pl = cfg.op_place(t["d"])
         ds = cfg.defs(body).get(pl[0], []) if pl else []
         if ds and ds[0][0] == "assign" and ds[0][2]["k"] == "discr" and (ds[0][2].get("enum") or "").endswith("QueryType"):
-            sw = (i, t, dict((v, n) for v, n in ds[0][2]["variants"]))
-            break
-    if len(flag) != 1 or not sw:
+            sws.append((i, t, dict((v, n) for v, n in ds[0][2]["variants"])))
+    if len(flag) != 1 or not sws:
         return None, False
     f = flag[0]
-    i0, t0, names = sw
-    regions = {names.get(v, "?%d" % v): cfg.reachable(body, [tb], avoid=[i0])[0] for v, tb in t0["ts"]}
     out = {}
-    for n, reg in regions.items():
-        others = set().union(*[r for m, r in regions.items() if m != n]) if len(regions) > 1 else set()
-        excl = reg - others
-        out[n] = any(s.get("l") == [f] and s["r"]["k"] == "use" and (cfg.op_const(s["r"]["o"]) or {}).get("v") == 1
-                     for bi in excl for s in body.blocks[bi]["s"])
+    for i0, t0, names in sws:        # the dispatch that sets the flag: the function's own match, or a folded predicate's
+        by_target = {}
+        for v, tb in t0["ts"]:
+            by_target.setdefault(tb, []).append(names.get(v, "?%d" % v))     # or-patterns share one target block
+        tregs = {tb: cfg.reachable(body, [tb], avoid=[i0])[0] for tb in by_target}
+        if t0.get("else") is not None and t0["else"] not in tregs:
+            tregs[t0["else"]] = cfg.reachable(body, [t0["else"]], avoid=[i0])[0]
+        cand = {}
+        for tb, vs in by_target.items():
+            others = set().union(*[r for m, r in tregs.items() if m != tb]) if len(tregs) > 1 else set()
+            excl = tregs[tb] - others
+            val = any(s.get("l") == [f] and s["r"]["k"] == "use" and (cfg.op_const(s["r"]["o"]) or {}).get("v") == 1
+                      for bi in excl for s in body.blocks[bi]["s"])
+            for n in vs:
+                cand[n] = val
+        # variants not listed by a `matches!`-style switch fall to its default arm (flag = false)
+        for n in names.values():
+            cand.setdefault(n, False)
+        if any(cand.values()):
+            out = cand
+            break
+    if not out:
+        return None, False
     # the flag only ever receives constants, and audit_query is reachable only through flag == true
     consts = all(d[0] == "assign" and d[2]["k"] == "use" and cfg.op_const(d[2]["o"]) for d in cfg.defs(body).get(f, []))
     edges = [swt["true_edge"] for swt in cfg.bool_switches(body, flow(body, [f]))]
@@ -1025,6 +1094,32 @@ def r24d(ctx, rule="R24d"):
     b = ctx.anchor(rule, "agdb_server::utilities::required_role")
     rr = arm_table(fa, b.path, lambda body: "Write" if "agdb_api::DbUserRole::Write" in body["paths"] and body["rets"] == 1
                    else ("skip" if not body["paths"] and not body["calls"] and not body["rets"] else "?")) if b else None
+    pred_form = False
+    if b and rr is None:
+        # `queries.0.iter().any(is_mutable)`: the classification lives in a predicate (fn item or closure) handed to any()
+        for i, t in cfg.calls(b):
+            if not (cfg.callee_decl(t) or "").endswith("Iterator::any") or len(t["a"]) < 2:
+                continue
+            preds = [cb.path for cb in common.closure_bodies_passed(fa, b, t)]
+            k = cfg.op_const(t["a"][1])
+            if k and k.get("fn"):
+                preds.append(k["fn"])
+            for pp in preds:
+                pt = arm_table(fa, pp, lambda body: "Write" if body["lits"] == ["Bool(true)"] else (
+                    "skip" if body["lits"] == ["Bool(false)"] else "?"), informative=lambda c: c == "Write")
+                if pt is None:
+                    continue
+                # linkage: any() == true returns Write, false returns Read; the iterator covers queries.0
+                writes = [bi for bi, s_ in cfg.assigns(b) if s_["l"] == [0] and s_["r"]["k"] == "agg" and s_["r"].get("variant") == "Write"]
+                reads_ = [bi for bi, s_ in cfg.assigns(b) if s_["l"] == [0] and s_["r"]["k"] == "agg" and s_["r"].get("variant") == "Read"]
+                sws_ = cfg.bool_switches(b, flow(b, [t["d"][0]]))
+                it_src = vexpr(b, t["a"][0])
+                whole = "(1, '.0')" in repr(who(b, t["a"][0])) or ".0" in repr(it_src)
+                if sws_ and writes and reads_ and whole and \
+                        all(cut(b, w, [sw_["true_edge"] for sw_ in sws_]) is None for w in writes) and \
+                        all(cut(b, r_, [sw_["false_edge"] for sw_ in sws_]) is None for r_ in reads_):
+                    rr = pt
+                    pred_form = True
     te = arm_table(fa, UDB + "t_exec", exec_class) if ctx.anchor(rule, UDB + "t_exec") else None
     bm = ctx.anchor(rule, UDB + "t_exec_mut")
     tm = arm_table(fa, UDB + "t_exec_mut", exec_class) if bm else None
@@ -1057,7 +1152,9 @@ def r24d(ctx, rule="R24d"):
            "audit_query is called only when the arm set do_audit (a flag that only receives constants)" if guarded else
            "audit_query in t_exec_mut is not guarded by the do_audit flag any more", bm.where)
     # required_role inspects every query of the batch: `Read` is returned only when the iterator is exhausted
-    if b:
+    if b and pred_form:
+        ctx.ob(rule, "required_role:all-queries", True, "Write iff any(query is mutating) over queries.0; Read otherwise", b.where)
+    elif b:
         reads = [bi for bi, s in cfg.assigns(b) if s["l"] == [0] and s["r"]["k"] == "agg" and s["r"].get("variant") == "Read"]
         nxt = [(i, t) for i, t in cfg.calls(b) if (cfg.callee(t) or "").endswith("Iterator>::next")]
         edges = []
